@@ -162,22 +162,35 @@ def reload_after_advance(ctx, prog, rule):
                     has_rem = any(p[0] == "binop" and p[1] == "Sub" and const_val(p[2]) == PAYLOAD and is_self_field(p[3], "offset") for p in parts)
                     okc = has_len and has_rem and strip(R.operand(t["args"][1]))[0] == "call"
     ctx.ob(rule, "buffer-copy/%s" % short(f.path), okc, "page_buffer[offset..offset+n] <- buf[..n] with n = min(buf.len(), 1020 - offset)")
+    # the emit is reachable only through the outcome "new cursor == 1020" of a test of the cursor (the field itself or
+    # the value that is stored into it)
     okt = False
+    stored = [strip_casts(R.rvalue(p)) for bi, si, kind, p in offs if kind == "stmt" and const_val(R.rvalue(p)) != 0]
     for bi in f.cfg():
-        t = f.blocks[bi]["term"]
-        if t["k"] == "switch":
-            dl = op_place(t["discr"])
+        te = int_test_edges(f, R, bi)
+        full_succ = None
+        if te is not None:
+            val, cases, others = te
+            v = strip_casts(val)
+            if (is_self_field(v, "offset") or v in stored) and PAYLOAD in cases:
+                full_succ = cases[PAYLOAD]
+        else:
+            t = f.blocks[bi]["term"]
+            dl = op_place(t["discr"]) if t["k"] == "switch" else None
             d = strip(R.place(dl)) if dl else None
-            if d and d[0] == "binop" and d[1] in ("Eq", "Ge") and is_self_field(d[2], "offset") and const_val(d[3]) == PAYLOAD:
+            if d and d[0] == "binop" and d[1] == "Ge" and (is_self_field(d[2], "offset") or strip_casts(d[2]) in stored) and const_val(d[3]) == PAYLOAD:
                 e = switch_edges(f, bi)
-                okt = bool(S.steps["emit"]) and f.dominates(bi, S.steps["emit"][0])
+                full_succ = e.get("1", e["otherwise"])
+        if full_succ is not None and S.steps["emit"]:
+            g = cfg_without_edges(f, [(bi, full_succ)])
+            okt = okt or all(b not in reach(g, [0]) for b in S.steps["emit"])
     ctx.ob(rule, "full-page-test/%s" % short(f.path), okt, "the page is emitted under the test self.offset == 1020")
     # return value is the number of bytes accepted
     oks = [p for bi, si, cls, p in f.ret_assignments() if cls == "ok"]
-    okr = len(oks) == 1
-    if okr:
-        v = strip(R.rvalue(oks[0]))[2][0]
-        okr = strip_casts(v)[0] == "call" and strip_casts(v)[1].endswith("::min")
+    okr = len(oks) >= 1
+    for p in oks:
+        v = strip(R.rvalue(p))[2][0]
+        okr = okr and strip_casts(v)[0] == "call" and strip_casts(v)[1].endswith("::min")
     ctx.ob(rule, "accepted-count/%s" % short(f.path), okr, "write returns the number of bytes copied into the page")
 
 
@@ -202,14 +215,25 @@ def flush_protocol(ctx, prog, rule):
     ok = bool(S.steps["emit"]) and bool(S.steps["seek-back"]) and f.ok_reachable(removed=S.steps["seek-back"], start=S.steps["emit"]) is None
     ctx.ob(rule, "partial-page-path/%s" % short(f.path), ok, "after writing the partial page every successful path seeks back to the page start")
     # guard offset > 0
+    # the partial page is emitted only on the outcome "offset != 0" of a test of the cursor
     okg = False
     for bi in f.cfg():
-        t = f.blocks[bi]["term"]
-        if t["k"] == "switch":
-            dl = op_place(t["discr"])
+        te = int_test_edges(f, R, bi)
+        cut = None
+        if te is not None:
+            val, cases, others = te
+            if is_self_field(strip_casts(val), "offset") and 0 in cases:
+                cut = [(bi, s) for s in others] + [(bi, s) for k, s in cases.items() if k != 0]
+        else:
+            t = f.blocks[bi]["term"]
+            dl = op_place(t["discr"]) if t["k"] == "switch" else None
             d = strip(R.place(dl)) if dl else None
-            if d and d[0] == "binop" and d[1] in ("Gt", "Ne") and is_self_field(d[2], "offset") and const_val(d[3]) == 0:
-                okg = bool(S.steps["emit"]) and f.dominates(bi, S.steps["emit"][0])
+            if d and d[0] == "binop" and d[1] == "Gt" and is_self_field(d[2], "offset") and const_val(d[3]) == 0:
+                e = switch_edges(f, bi)
+                cut = [(bi, e.get("1", e["otherwise"]))]
+        if cut and S.steps["emit"]:
+            g = cfg_without_edges(f, cut)
+            okg = okg or all(b not in reach(g, [0]) for b in S.steps["emit"])
     ctx.ob(rule, "non-empty-guard/%s" % short(f.path), okg, "the partial page is written when self.offset > 0")
     # flush does not change offset
     offs = field_assignments(f, "paged_writer::PagedWriter", "offset")
@@ -354,12 +378,17 @@ def read_current_page_shape(ctx, prog, rule):
     S.step("zero-fill", calls_where(f, lambda c, t, R: c.endswith("::fill") and const_val(R.operand(t["args"][1])) == 0))
     S.must_pass("zero-fill")
     R = Resolver(f)
-    # the loop starts from the whole page buffer
+    # the loop starts from the whole page buffer: the destination of the raw read is (a suffix of) page_buffer[..]
     ok = False
-    for bi, t in f.calls(lambda c, t: c.endswith("index_mut")):
-        sl = slice_of(R.operand(t["dest"] and {"k": "copy", "place": t["dest"]}))
-        if sl and is_self_field(sl[0], "page_buffer") and sl[1] == "full":
-            ok = True
+    for bi, t in f.calls(lambda c, t: c.endswith("Read::read") and len(t["args"]) == 2):
+        tr = R.operand(t["args"][1])
+        for alt in (tr[1] if tr[0] == "phi" else (tr,)):
+            x = strip(alt)
+            while x[0] == "cast":
+                x = strip(x[2])
+            sl = slice_of(alt)
+            if is_self_field(x, "page_buffer") or (sl and is_self_field(sl[0], "page_buffer") and sl[1] == "full"):
+                ok = True
     ctx.ob(rule, "whole-buffer/%s" % short(f.path), ok, "read_current_page fills &mut page_buffer[..] (the whole page)")
 
 
